@@ -10,6 +10,7 @@ From Coq Require Import List ZArith Arith Sorted.
 Import ListNotations.
 From DD Require Import Lfu.LfuModel Lfu.LfuSpec Lfu.LfuInv Lfu.LfuSpecProps Lfu.LfuProofs.
 From DD Require Import Lfu.LfuRtModel Lfu.LfuRtProofs.
+From DD Require Import Lfu.LfuHeapModel Lfu.LfuHeapProofs.
 
 (** ** The model: structural invariant after every operation sequence *)
 Theorem C18_inv : forall (val : Type) (c : nat) (ops : list (op val)), 1 <= c ->
@@ -171,3 +172,78 @@ Theorem C18_rt_set_then_find : forall (c : nat) (ops : list rop) (k : key) (rt :
   exists u, find_key k (buckets (rstate_of c (ops ++ [RSet k rt v]))) = Some (u, cnt).
 Proof. exact rt_set_then_find. Qed.
 Print Assumptions C18_rt_set_then_find.
+
+(** ** Pointer level (Lfu/LfuHeapModel.v): CacheNode / FreqNode / LFUCache objects in a
+    heap, every method transcribed statement by statement, [None] = an AttributeError /
+    KeyError.  [heap_repr h s] (Lfu/LfuHeapProofs.v): walking [h] from freq_link_head
+    yields exactly the bucket list of [s] (the decorated list [sh] with [erase sh =
+    buckets s]); pre is the inverse of nxt in both kinds of list; every cache node's
+    freq_node is its bucket; cache_head / cache_tail are the ends; the dict is a
+    permutation of the (key, node) pairs; ids are unique and below the allocation
+    counters; keys are unique. *)
+
+(** all operation sequences: the heap model never raises, returns the outputs of the
+    bucket-list model and ends in a heap representing its final state *)
+Theorem C18_heap_refines : forall (val : Type) (c : nat) (ops : list (op val)), 1 <= c ->
+  exists h', hrun (hempty c) ops = Some (h', snd (run (empty c) ops)) /\
+             heap_repr h' (state_of c ops).
+Proof. exact (@heap_refines). Qed.
+Print Assumptions C18_heap_refines.
+
+(** one step, from any heap representing any state with no empty bucket *)
+Theorem C18_heap_step_refines : forall (val : Type) (h : heap val) (s : lfu val) (o : op val),
+  1 <= cap s -> nonempty (buckets s) -> heap_repr h s ->
+  exists h', hstep h o = Some (h', snd (step s o)) /\ heap_repr h' (fst (step s o)).
+Proof. exact (@hstep_refines). Qed.
+Print Assumptions C18_heap_step_refines.
+
+(** composed with C18_refines_spec: the pointer-level model produces the outputs of the
+    abstract bounded-LFU specification *)
+Theorem C18_heap_meets_spec : forall (val : Type) (c : nat) (ops : list (op val)), 1 <= c ->
+  exists h', hrun (hempty c) ops = Some (h', snd (srun (sempty c) ops)).
+Proof. exact (@heap_meets_spec). Qed.
+Print Assumptions C18_heap_meets_spec.
+
+(** method by method *)
+(** CacheNode.free_myself, all four cases (only node / head / tail / middle): the node [a]
+    between [l1] and [l2] of bucket [fi] is detached, the bucket's list is [l1 ++ l2] with
+    head and tail adjusted, nothing else changes *)
+Theorem C18_heap_free_myself : forall (val : Type) (h : heap val) fi f p n l1 (a : centry val) l2,
+  bucket_ok h fi f (l1 ++ a :: l2) p n ->
+  NoDup (map (@cid val) (l1 ++ a :: l2)) ->
+  exists h',
+    free_myself h (cid a) = Some h' /\
+    bucket_ok h' fi f (l1 ++ l2) p n /\
+    cget h' (cid a) = Some (mkC (akey a) (aval a) None None None) /\
+    (forall j, ~ In j (map (@cid val) (l1 ++ a :: l2)) -> cget h' j = cget h j) /\
+    (forall j, j <> fi -> fget h' j = fget h j) /\
+    same_rest h h'.
+Proof. exact (@free_myself_spec). Qed.
+Print Assumptions C18_heap_free_myself.
+
+Theorem C18_heap_move_forward : forall (val : Type) (h : heap val) s1 fi f l1 (a : centry val) l2 s2,
+  wf h (s1 ++ (fi, (f, l1 ++ a :: l2)) :: s2) ->
+  exists h',
+    LfuHeapModel.move_forward h (cid a) fi = Some h' /\
+    wf h' (s1 ++ keep (fi, (f, l1 ++ l2)) ++ mf_tail (nextf h) f a s2) /\
+    hcap h' = hcap h.
+Proof. exact (@move_forward_spec). Qed.
+Print Assumptions C18_heap_move_forward.
+
+Theorem C18_heap_dump_cache : forall (val : Type) (h : heap val) fi f (a : centry val) l2 s2,
+  wf h ((fi, (f, a :: l2)) :: s2) ->
+  exists h',
+    LfuHeapModel.dump_cache h = Some h' /\
+    wf h' (keep (fi, (f, l2)) ++ s2) /\
+    hcap h' = hcap h.
+Proof. exact (@dump_cache_spec). Qed.
+Print Assumptions C18_heap_dump_cache.
+
+Theorem C18_heap_create_cache_node : forall (val : Type) (h : heap val) sh (k : key) (v : val),
+  wf h sh -> ~ In k (map (@akey val) (all_c sh)) ->
+  exists h',
+    create_cache_node h k v = Some h' /\
+    wf h' (create_shape (nextc h) (nextf h) k v sh) /\
+    hcap h' = hcap h.
+Proof. exact (@create_spec). Qed.
+Print Assumptions C18_heap_create_cache_node.
